@@ -135,7 +135,8 @@ def barnesg(ctx, z):
 
 @defun
 def superfac(ctx, z):
-    return ctx.barnesg(z+2)
+    # z+2 must not be rounded: barnesg is ill-conditioned for large |z|
+    return ctx.barnesg(ctx.fadd(z, 2, exact=True))
 
 @defun_wrapped
 def hyperfac(ctx, z):
